@@ -77,6 +77,9 @@ def dir_err(impl, fr):
 # the real implementation
 # --------------------------------------------------------------------------------------------
 def vec_of(osy, v, unit=""):
+    if all(isinstance(c, int) and abs(c) >= 2 ** 53 for c in v if c != 0) and any(c != 0 for c in v) and all(isinstance(c, int) for c in v):
+        # integer normals beyond 2^53 stay integers (int64 components): sums of two components may exceed 2^63
+        return osy.Vector(int(v[0]), int(v[1]), int(v[2]), unit=unit or None)
     return osy.Vector(float(v[0]), float(v[1]), float(v[2]), unit=unit or None)
 
 
@@ -367,6 +370,12 @@ def gen_cases(ctx):
     cases.append({"kind": "vec", "v": [1e-170, 2e-170, 3e-170], "unit": "", "tags": ["vec", "witness_small_norm"]})
     cases.append({"kind": "vec", "v": [1e200, 1e200, 1e200], "unit": "", "tags": ["vec", "witness_large_norm"]})
     cases.append({"kind": "vec", "v": [0.0, 0.0, 0.0], "unit": "", "tags": ["vec", "zero"]})
+    # integer normals with components close to the int64 range (the sum of two components does not fit)
+    big = [[3 * 2 ** 61] * 3, [2 ** 62, 2 ** 62, 2 ** 60], [2 ** 62, 2 ** 62 - 2 ** 55, -(2 ** 61)], [-(2 ** 62), -(2 ** 62), 2 ** 61],
+           [2 ** 62, 2 ** 61 + 2 ** 60, 0], [5 * 2 ** 60, 7 * 2 ** 60, 2 ** 59]]
+    for v in big:
+        cases.append({"kind": "vec", "v": v, "unit": r.choice(units), "tags": ["vec", "int64_near_overflow"]})
+        cases.append({"kind": "roll", "n": v, "unit": "", "tags": ["ctor", "roll_int64_near_overflow"]})
     # --- VectorBasis objects and the constructor
     for v in normals[: (30 if not thorough else 400)]:
         cases.append({"kind": "basis", "n": v, "rolled": False, "unit": "", "tags": ["basis", "object"]})
